@@ -40,6 +40,16 @@ def _load() -> None:
     for ent in (set, frozenset):
         core._PATCH_REGISTRATIONS.pop(ent, None)
 
+    # Floats are modelled over the reals only. By default CrossHair also forks a
+    # bit-precise IEEE-754 representation (z3 FP theory) for every float that is
+    # created, and a tree can only be exhausted after those paths as well - a
+    # trivial three-comparison function then takes > 60 s instead of 0.1 s.
+    # Every claim that involves time is therefore a claim about real-number
+    # arithmetic (no rounding); stated in the evidence assumptions.
+    import crosshair.libimpl.builtinslib as _bl
+
+    _bl._PYTYPE_TO_WRAPPER_TYPE[float] = ((_bl.RealBasedSymbolicFloat, 1.0),)
+
     orig_check = z3.Solver.check
 
     def timed_check(self, *a, **k):  # type: ignore[no-untyped-def]
